@@ -1,2 +1,3 @@
 import SpoxModel.Props.C05
 /-! `#print axioms` for every property theorem of C05; parsed by ./check. -/
+#print axioms C05.untyped_input_no_check
